@@ -13,11 +13,21 @@ writes (buffer):  `wbool 0|1` `wu8 n` `wu16 n` `wi16 n` `wu32 n` `wi32 n` `wu64 
                   `wvu32 n` `wvi32 n` `wstr <hex>` `wlstr <limit> <hex>` `wraw <hex>`   → `ok len=<n>` | `err:sizeLimit len=<n>`
 reads (buffer or stream): `rbool` `ru8` `ru16` `ri16` `ru32` `ri32` `ru64` `ri64` `rf64` `rstr` `rlstr <limit>` `read <n>` `readn <n>` `zreadn <n>`
                   and, buffer only, `rvu64` `rvi64` `rvu32` `rvi32`          → `v=<value> len|left=<n>` | `err:<e> len|left=<n>`
+`recheck` (buffer or stream): the raw values handed out so far, again → `recheck=<v>,<v>,…` | `recheck=.`
 other (buffer):   `rewrite <pos> <hex>` `rewriteu32 <pos> <v>` → `ok bytes=<hex>` | `panic` ; `bytes` ; `len` ; `reset`
 hex = lower-case pairs, `-` for the empty string. Counts are limited to ±2^20. Stream `rstr`/`rlstr` whose pending
 length field exceeds 2^24 is answered `guard:huge` without executing (the real code would allocate that much).
 -/
 open Nv Nv.C10
+
+/-- the configuration the oracle runs: the regenerated one; where the extractor could not classify the source
+    (`unknown`) the oracle answers with the *proved* behaviour (io.ReadFull, empty string accepted), so that an
+    unclassifiable but equivalent rewrite shows as one broken tie and not as a series of correspondence differences,
+    while a non-equivalent one still differs here and on the monitors. The tie obligation is unaffected. -/
+def effCfg : Cfg :=
+  let c := Nv.Gen.C10.cfg
+  ⟨if c.strategy = .unknown then .full else c.strategy, if c.zeroLen = .unknown then .accept else c.zeroLen,
+   if c.strategy = .unknown then true else c.mapShort⟩
 
 inductive St
   | none
@@ -250,14 +260,72 @@ def step (st : St) (line : String) : St × String :=
              | _ => none) with
       | some ty =>
         -- probe in a memory-capped child process (T-observable): the model's answer, or the runtime's fatal abort
-        let r := decStream Nv.Gen.C10.cfg ty s
+        let r := decStream effCfg ty s
         (.none, "{" ++ showOut r.1 ++ s!" left={r.2.flat.length}" ++ "|fatal:out-of-memory}")
       | none =>
       match parseRead ws with
       | some ty =>
         if !ty.streamable then (st, "bad-op")
         else if isStrTy ty && decide (s.flat.length ≥ 4) && decide (leVal (s.flat.take 4) > 16777216) then (st, "guard:huge")
-        else let r := decStream Nv.Gen.C10.cfg ty s; (.stream r.2, showOut r.1 ++ s!" left={r.2.flat.length}")
+        else let r := decStream effCfg ty s; (.stream r.2, showOut r.1 ++ s!" left={r.2.flat.length}")
       | none => (st, "bad-op")
 
-def main : IO Unit := oracleMain step St.none
+/-- oracle state: the machine state and the raw values (`read`/`readn`/`zreadn` results) handed out so far.
+    Values are immutable in the model: `recheck` prints them again, unchanged. They are forgotten by every initialising
+    line and, on a buffer, by every well-formed write / `reset` / `rewrite*` / `tostream` (BufferX.ZReadN hands out the
+    buffer's own storage, valid until the buffer is written to). -/
+structure OSt where
+  st : St
+  kept : List Bytes
+
+def isInit : List String → Bool
+  | ["new"] => true
+  | ["news", _] => true
+  | ["load", _] => true
+  | "tload" :: _ :: _ => true
+  | ["sload", _, _] => true
+  | _ => false
+
+def rawOk : Out Val → Option Bytes
+  | .ok (.raw p) => some p
+  | _ => none
+
+def keptAfter (o : OSt) (ws : List String) (st' : St) : List Bytes :=
+  if isInit ws then [] else
+  match o.st with
+  | .none => o.kept
+  | .buf bs =>
+    if (parseWrite ws).isSome then [] else
+    match parseRead ws with
+    | some ty => match rawOk (decBuf ty bs).1 with
+      | some p => o.kept ++ [p]
+      | none => o.kept
+    | none =>
+      match ws with
+      | ["reset"] => []
+      | ["rewrite", p, h] => if (parseCount p).isSome && (parseHex h).isSome then [] else o.kept
+      | ["rewriteu32", p, v] => if (parseCount p).isSome && (parseU 32 v).isSome then [] else o.kept
+      | ["tostream", _, _] => match st' with
+        | .stream _ => []
+        | _ => o.kept
+      | _ => o.kept
+  | .stream s =>
+    match parseRead ws with
+    | some ty =>
+      if ty.streamable && !isStrTy ty then
+        match rawOk (decStream effCfg ty s).1 with
+        | some p => o.kept ++ [p]
+        | none => o.kept
+      else o.kept
+    | none => o.kept
+
+def stepK (o : OSt) (line : String) : OSt × String :=
+  let ws := words line
+  match ws, o.st with
+  | ["recheck"], .buf _ => (o, "recheck=" ++ (if o.kept.isEmpty then "." else ",".intercalate (o.kept.map showHex)))
+  | ["recheck"], .stream _ => (o, "recheck=" ++ (if o.kept.isEmpty then "." else ",".intercalate (o.kept.map showHex)))
+  | _, _ =>
+    let r := step o.st line
+    (⟨r.1, keptAfter o ws r.1⟩, r.2)
+
+def main : IO Unit := oracleMain stepK ⟨St.none, []⟩
